@@ -279,9 +279,21 @@ impl Admin {
                 w.exec(m, &[i], &[&s]).await
             }
             89..=91 => {
-                let s = self.signer_for(w, r, "admin");
-                let dest = w.user_kp(0).pubkey();
-                let i = ix::update_fees_destination(gk, s.pubkey(), bk, dest);
+                let mut s = self.signer_for(w, r, "admin");
+                let mut dest = w.user_kp(0).pubkey();
+                let mut gk_used = gk;
+                if r.gen_bool(0.25) {
+                    // the admin of another group names its own group next to this group's bank
+                    if w.groups.len() < 2 {
+                        w.add_group().await;
+                    }
+                    let og = (self.g + 1) % w.groups.len();
+                    s = clone_kp(&w.groups[og].admin);
+                    gk_used = w.groups[og].key;
+                    dest = w.user_kp(1).pubkey();
+                    m.r.count("admin.fees_destination_update_by_foreign_group_admin");
+                }
+                let i = ix::update_fees_destination(gk_used, s.pubkey(), bk, dest);
                 let o = w.exec(m, &[i], &[&s]).await;
                 let mint = w.banks[b].mint;
                 let a = w.create_ata(dest, mint).await;
